@@ -273,9 +273,20 @@ func smtUnescape(lit string) string {
 	return string(b)
 }
 
+// replayTyping: type-range facts of the adapter's input values; they are asserted when the model is
+// queried, so that inputs the failing path never looked at still get values of their Go type.
+var replayTyping []T
+
 func queryValues(c *Check, terms []T) (map[string]*sexp, string) {
 	script := c.Script(20000, false)
 	script = strings.Replace(script, "(get-model)\n", "", 1)
+	if len(replayTyping) > 0 {
+		var tf strings.Builder
+		for _, f := range replayTyping {
+			tf.WriteString("(assert " + f.S + ")\n")
+		}
+		script = strings.Replace(script, "(check-sat)\n", tf.String()+"(check-sat)\n", 1)
+	}
 	var b strings.Builder
 	b.WriteString(script)
 	b.WriteString("(get-value (")
@@ -304,6 +315,7 @@ func queryValues(c *Check, terms []T) (map[string]*sexp, string) {
 			full = full[:i] + pre + full[i:]
 		}
 	}
+	os.WriteFile(filepath.Join(verifDir, ".work", "replay_query.smt2"), []byte(full), 0o644)
 	ctx, cancel := context.WithTimeout(context.Background(), 30*time.Second)
 	defer cancel()
 	cmd := exec.CommandContext(ctx, "z3-new", "-in", "-smt2")
@@ -385,7 +397,15 @@ func runAdapter(x *Exec, prop string, ob *Obligation, in *Instance, model map[st
 			}
 			terms = append(terms, t)
 			names = append(names, v.name)
+			if sv.typ != nil {
+				if f := typingFact(sv.typ, t); f.S != "true" {
+					replayTyping = append(replayTyping, f)
+				}
+			} else {
+				fmt.Fprintf(&out, "adapter value %s has no Go type: its range is not constrained\n", v.name)
+			}
 		}
+		defer func() { replayTyping = nil }()
 		vals, raw := queryValues(in.Check, terms)
 		if len(vals) == 0 {
 			fmt.Fprintf(&out, "could not obtain values from the solver: %s\n", firstLines(raw, 5))
